@@ -120,14 +120,18 @@ SetTop(f) == [stack EXCEPT ![Len(stack)] = f]
 HasOutline == Len(Doc.outlines) = 1
 Reported(i) == Item(i).hastitle /\ (("DropsUntargeted" \notin Dev) \/ Item(i).dest \/ Item(i).a)
 
-Init == d = 1 /\ phase = "pure" /\ stack = <<>> /\ k = 0
+Init == d = 1 /\ phase = "labels" /\ stack = <<>> /\ k = 0
 
-\* labels, destinations, text strings: evaluated as functions of the recorded data
-TPure == /\ d <= ND /\ phase = "pure"
-         /\ (LabelsOK(Doc) /\ DestsOK(Doc) /\ TextsOK(Doc)) = TRUE
-         /\ phase' = "outline" /\ k' = 0
-         /\ stack' = IF HasOutline THEN <<[item |-> 1, level |-> 0, stage |-> "title"]>> ELSE <<>>
-         /\ UNCHANGED d
+\* labels, destinations, text strings: evaluated as functions of the recorded data, one phase each (a rejected
+\* document deadlocks in the phase that does not explain it)
+TLabels == /\ d <= ND /\ phase = "labels" /\ LabelsOK(Doc) = TRUE
+           /\ phase' = "dests" /\ UNCHANGED <<d, stack, k>>
+TDests ==  /\ d <= ND /\ phase = "dests" /\ DestsOK(Doc) = TRUE
+           /\ phase' = "texts" /\ UNCHANGED <<d, stack, k>>
+TTexts ==  /\ d <= ND /\ phase = "texts" /\ TextsOK(Doc) = TRUE
+           /\ phase' = "outline" /\ k' = 0
+           /\ stack' = IF HasOutline THEN <<[item |-> 1, level |-> 0, stage |-> "title"]>> ELSE <<>>
+           /\ UNCHANGED d
 OVisit == /\ d <= ND /\ phase = "outline" /\ stack # <<>> /\ Top.stage = "title"
           /\ IF Reported(Top.item)
                THEN /\ k < Len(OL.out)
@@ -158,11 +162,12 @@ OReturn == /\ d <= ND /\ phase = "outline" /\ stack # <<>> /\ Top.stage = "end"
            /\ UNCHANGED <<d, phase, k>>
 \* the recorded call ended: normally after the last item; a run cut short by RecursionError is a prefix
 TEndDoc == /\ d <= ND /\ phase = "outline"
-           /\ \/ stack = <<>> /\ (~HasOutline \/ (OL.err = "none" /\ k = Len(OL.out)))
-              \/ HasOutline /\ OL.err = "RecursionError" /\ "NextRecurses" \in Dev /\ k = Len(OL.out) /\ Len(stack) > 300
-           /\ d' = d + 1 /\ phase' = "pure" /\ stack' = <<>> /\ k' = 0
+           /\ (IF ~HasOutline THEN stack = <<>>
+               ELSE \/ (stack = <<>> /\ OL.err = "none" /\ k = Len(OL.out))
+                    \/ (OL.err = "RecursionError" /\ "NextRecurses" \in Dev /\ k = Len(OL.out) /\ Len(stack) > 300)) = TRUE
+           /\ d' = d + 1 /\ phase' = "labels" /\ stack' = <<>> /\ k' = 0
 Finished == d > ND /\ UNCHANGED vars
-Next == TPure \/ OVisit \/ OFirst \/ ONext \/ OReturn \/ TEndDoc \/ Finished
+Next == TLabels \/ TDests \/ TTexts \/ OVisit \/ OFirst \/ ONext \/ OReturn \/ TEndDoc \/ Finished
 Spec == Init /\ [][Next]_vars
 
 \* evaluated in every state
